@@ -46,6 +46,7 @@ def setup(rep, tier):
     rep.minimum('R10.3', 5)
     rep.minimum('R10.4', 8)
     rep.minimum('R10.5', 8)
+    rep.minimum('R10.6', 6)
 
 
 # ---------------------------------------------------------------- R10.1
@@ -493,7 +494,45 @@ def r10_5(rep, prog):
                                             **({} if ok else {'key': 'projdec'}))
 
 
+def r10_6(rep, prog):
+    """every channel search starts from the beginning of the mapping: the
+    cursor passed to get_left/right/mono_channel is -1 when its loop is
+    entered (reaching definitions), so that no channel mapped to the stream
+    is skipped whatever the order of the mapping table"""
+    sel = ('get_left_channel', 'get_right_channel', 'get_mono_channel')
+    n = 0
+    for fname in ('opus_multistream_decode_native', 'opus_multistream_encode_native', 'opus_multistream_surround_encoder_init', 'surround_rate_allocation', 'validate_encoder_layout'):
+        if not prog.has_fn(fname):
+            continue
+        f = prog.fn(fname)
+        cf = cfgm.CFG(f)
+        for b, i, c in cf.find(lambda c: c[0] == 'call' and sx.callee_name(c) in sel):
+            cur = sx.strip(c[2][2])
+            where = '%s:%s' % (f.file, sx.line(c))
+            inst = '%s:%s %s search starts at -1' % (prog.config, fname, sx.callee_name(c))
+            n += 1
+            if sx.int_val(cur) == -1:
+                rep.holds('R10.6', inst, where, 'constant -1')
+                continue
+            if sx.kind(cur) != 'local':
+                rep.unresolved('R10.6', 'cursor argument `%s` is not a local' % sx.show(cur), where)
+                continue
+            ds, defs = cfgm.defs_at(cf, cur[2], b, i)
+            # definitions inside the loop that contains the call (they are the `prev = chan` advance) are fine
+            loop = {x for x in cf.reachable_from(b) if b in cf.reachable_from(x)} | {b}
+            outside = [defs[d] for d in ds if defs[d][0] not in loop or not cf.dominates(b, defs[d][0])]
+            bad = [d for d in outside if sx.int_val(d[2][2]) != -1]
+            if outside and not bad:
+                rep.holds('R10.6', inst, where, 'entered with %s' % sorted({sx.show(d[2]) for d in outside}))
+            else:
+                rep.violated('R10.6', inst, where, 'the loop can be entered with the cursor left by %s: channels mapped to this stream at lower indices are never visited' %
+                             (sorted({'`%s` (line %s)' % (sx.show(d[2]), sx.line(d[2])) for d in bad}) or 'no definition'), key='%s:%s:cursor' % (fname, sx.callee_name(c)))
+    if n < 6:
+        rep.unresolved('R10.6', 'only %d channel-selector calls found' % n)
+
+
 def check(rep, prog, tier):
+    r10_6(rep, prog)
     r10_1(rep, prog)
     r10_2(rep, prog)
     r10_3(rep, prog)
